@@ -15,6 +15,7 @@ Definition run (kind : Z) (l : list Z) : list Z :=
   | 23 => run_gentrace l
   | 14 => run_csv_read l
   | 15 => run_gen l
+  | 25 => run_gen_u l
   | 24 => run_csv_write l
   | 34 => run_csv_lazy l
   | 19 => run_rest l
